@@ -31,6 +31,7 @@ static char root[1024];
 static size_t rootlen = 0;
 static int logfd = -1;
 static int gate_req = -1, gate_ack = -1, gate_on = 0;
+static int gate_level = 2;   /* 2: every event; 1: not read/pread/stat-like events */
 static long armed = -1;      /* -1 idle; 0 count only; >0 kill before that mutating event */
 static int arm_half = 0;
 static long mcount = 0;      /* mutating events since arming */
@@ -47,6 +48,8 @@ static void __attribute__((constructor)) shim_init(void) {
     if (l && *l) logfd = (int)syscall(SYS_openat, AT_FDCWD, l, O_WRONLY | O_CREAT | O_APPEND | O_CLOEXEC, 0644);
     const char *g = getenv("FSSHIM_GATE");
     if (g && *g) { if (sscanf(g, "%d,%d", &gate_req, &gate_ack) == 2) gate_on = 0; }
+    const char *gl = getenv("FSSHIM_GATE_LEVEL");
+    if (gl && *gl) gate_level = atoi(gl);
 }
 
 static int under_root(const char *p) {
@@ -74,6 +77,8 @@ static void emit(int mutating, const char *op, const char *detail, long size) {
 
 static void gate(const char *op, const char *detail) {
     if (!gate_on || gate_req < 0) return;
+    if (gate_level < 2 && (strcmp(op, "read") == 0 || strcmp(op, "pread") == 0 || strcmp(op, "stat") == 0 ||
+                           strcmp(op, "lstat") == 0 || strcmp(op, "access") == 0)) return;
     char buf[1400];
     int n = snprintf(buf, sizeof(buf), "%d %s %s\n", (int)getpid(), op, detail ? detail : "-");
     if (n > (int)sizeof(buf)) n = sizeof(buf);
